@@ -144,6 +144,28 @@ StrictPresent(j, t) ==
       [] t.kind = "tuple" -> \A i \in DOMAIN t.items : StrictPresent(j.a[i], t.items[i])
       [] OTHER -> TRUE
 
+\* Closed(j, t): some valid reading of j declares every key that j carries (an "exact instance").
+\* Inputs the specification did not generate are only judged when they are exact instances: a key
+\* that a SIBLING alternative declares is neither "undeclared" (C15) nor part of the reading (C01).
+RECURSIVE Closed(_, _)
+ClosedProps(j, props) ==
+    /\ j.k = "obj"
+    /\ DOMAIN j.f \subseteq {props[i].name : i \in DOMAIN props}
+    /\ \A i \in DOMAIN props : props[i].name \in DOMAIN j.f => Closed(j.f[props[i].name], props[i].type)
+Closed(j, t) ==
+    CASE t.kind = "cls" -> ClosedProps(j, PropsOf(t.cls))
+      [] t.kind = "reference" ->
+            IF t.name \in SName THEN ClosedProps(j, FlatM[t.name])
+            ELSE IF t.name \in AName /\ t.name # "LSPAny" THEN Closed(j, ADef[t.name].type)
+            ELSE TRUE
+      [] t.kind = "array" -> j.k = "arr" /\ \A i \in DOMAIN j.a : Closed(j.a[i], t.element)
+      [] t.kind = "map" -> j.k = "obj" /\ \A key \in DOMAIN j.f : Closed(j.f[key], t.value)
+      [] t.kind = "or" -> \E i \in DOMAIN t.items : Valid(j, t.items[i]) /\ Closed(j, t.items[i])
+      [] t.kind = "tuple" -> j.k = "arr" /\ Len(j.a) = Len(t.items) /\ \A i \in DOMAIN t.items : Closed(j.a[i], t.items[i])
+      [] t.kind = "literal" -> t.value.properties = <<>> \/ ClosedProps(j, t.value.properties)
+      [] t.kind = "and" -> ClosedProps(j, AndProps(t.items))
+      [] OTHER -> TRUE
+
 (***************************************************************************)
 (* Abstract objects.                                                        *)
 (***************************************************************************)
